@@ -92,15 +92,6 @@ Proof.
 Qed.
 
 (* ---------- C03: one graceful terminate ---------- *)
-(* the statement boundaries inside the handler that records a failure: landing there loses the report *)
-Definition handler_window (k : kind) (t : target) (p : nat) : bool :=
-  match t with
-  | TRaise | TRaiseBase =>
-      negb (obs_eqb (observe k true (run k false t [(p, term_action k)])) (own k t))
-      && negb (obs_eqb (observe k true (run k false t [(p, term_action k)])) (OErr (Some EWTE)))
-  | _ => false
-  end.
-
 Definition c03_check (x : kind * bool * target * nat) : bool :=
   let '(k, pers, t, p) := x in
   if p <? start_point k then true else
@@ -108,7 +99,7 @@ Definition c03_check (x : kind * bool * target * nat) : bool :=
   let o := observe k true r in
   match t with
   | TLoop => obs_eqb o (OErr (Some EWTE)) && cleanup_ran (snd r) || obs_eqb o OAlive
-  | _ => obs_eqb o (own k t) || obs_eqb o (OErr (Some EWTE)) || handler_window k t p
+  | _ => obs_eqb o (own k t) || obs_eqb o (OErr (Some EWTE))
   end.
 
 Definition c03_cases := list_prod (list_prod (list_prod kinds3 bools) targets) (seq 0 BOUND_R).
@@ -121,16 +112,6 @@ Theorem c03_every_landing k pers t p :
 Proof.
   intros [H1 H2]. apply (proj1 (forallb_forall c03_check c03_cases) c03_all).
   unfold c03_cases. apply in_prod; [apply in_prod; [apply in_prod; [apply in_kinds3|apply in_bools]|apply in_targets]|apply in_seq; lia].
-Qed.
-
-(* the remote kind has no handler window: its handlers are nested, a request landing in the inner one is caught and
-   reported by the outer one *)
-Lemma c03_remote_no_window t p : p < BOUND_R -> handler_window KRemote t p = false.
-Proof.
-  intros H.
-  assert (A : forallb (fun x => negb (handler_window KRemote (fst x) (snd x))) (list_prod targets (seq 0 BOUND_R)) = true) by (vm_compute; reflexivity).
-  apply negb_true_iff.
-  apply (proj1 (forallb_forall _ _) A (t, p)). apply in_prod; [apply in_targets|apply in_seq; lia].
 Qed.
 
 (* the request lands inside the running target: always reported as WorkerTerminatedError, finally blocks ran *)
